@@ -192,6 +192,9 @@ def run(rep) -> None:
         for literal in (False, True):
             gen.generate(doc, d / f"req{int(literal)}", literal_enums=literal)
             packages.append(d / f"req{int(literal)}")
+        # the generated code must also RUN where it type-checks: the structured families are decoded and encoded (names that only exist under
+        # TYPE_CHECKING, helpers that are annotated but not imported ...)
+        c02.structured(rep, d, pkg="runs", prop="C11")
         comps, fam = c02.structured_families()
         g = gen.generate(gen.mkdoc(schemas={**comps, **{k: v[0] for k, v in fam.items()}}), d / "structured")
         if not g["exc"] and not g["rejected"]:
